@@ -102,7 +102,7 @@ fn mat_scale<'s>(w: Array2<f64>, b: Vec<f64>) -> Box<dyn Fn(&[f64], usize, f64) 
 }
 
 fn spec<'s>(kind: &'static str, a: &Args, pool: &'s [Vec<f64>]) -> Spec<'s> {
-    Spec::new(kind, a.instance, a.max_len, pool, &a.only)
+    Spec::new(kind, a.instance, a.max_len, pool)
 }
 
 // ============================ clustering ============================
